@@ -118,4 +118,12 @@ def judge (ops : List Nat) (shortRead : Bool) (base got : List Tok) (leak : Nat)
       if got.length < base.length ∧ !gotEnded ∧ (got.getLast?.map (fun t => match t with | .closed _ => true | _ => false)) != some true
       then .bad got.length "the session stopped without the connection being closed" else .ok
 
+/-- … and however the session went, once the client has finished (half-closed its side) the server must
+    end the connection: `endHung` = the client waited for that in vain ("however a connection ends … its
+    goroutine ends") -/
+def judgeEnd (endHung : Bool) (ops : List Nat) (shortRead : Bool) (base got : List Tok) (leak : Nat) (alive : Bool)
+    (gotEnded : Bool) : Verdict :=
+  if endHung then .bad got.length "the server did not end the connection after the client had finished"
+  else judge ops shortRead base got leak alive gotEnded
+
 end Ps3.Spec.C13
